@@ -145,6 +145,28 @@ fn run_typed<KF: KeyFam, VF: ValFam>(case: &Case, out: &mut CaseOut) -> R {
             Err(e) => sfail!("ro-open", "open_table in read transaction failed: {e:?}"),
         }
     }
+    // a table-level bug that corrupts what is stored without changing what the API returns
+    // (a stale checksum, a wrong count) shows up here: clean close, reopen, integrity check
+    drop(db);
+    let mut db = match case.cfg.builder().create_with_backend(backend.reopen_handle()) {
+        Ok(db) => db,
+        Err(e) => sfail!("reopen", "final reopen failed: {e:?}"),
+    };
+    match db.check_integrity() {
+        Ok(true) => {}
+        r => sfail!("final-check-integrity", "check_integrity() after the case returned {r:?}"),
+    }
+    if commits > 0 {
+        let rt = match db.begin_read() {
+            Ok(t) => t,
+            Err(e) => sfail!("begin_read", "begin_read failed: {e:?}"),
+        };
+        match rt.open_table(def) {
+            Ok(t) => full_compare::<KF, VF, _>(&t, &committed)?,
+            Err(e) => sfail!("ro-open", "open_table after the final reopen failed: {e:?}"),
+        }
+    }
+    drop(db);
     let v = backend.monitor_violations();
     sensure!(v.is_empty(), "backend-contract", "backend contract violated: {:?}", v);
 
